@@ -285,28 +285,28 @@ func cmdCheck(args []string) int {
 			"wall_s":      wall,
 			"violations":  violations,
 			"coverage": map[string]interface{}{
-				"states":                        max(paths-infeasible, 1),
-				"transitions":                   max(decisions, 1),
-				"traces_validated_against_impl": validated,
-				"samples":                       samples,
-				"exhaustive":                    len(inconcl) == 0,
-				"explanation":                   "states = symbolic paths of the real SSA code explored to completion (each covers every input satisfying its path condition); transitions = branch/structure/schedule decisions; every obligation is decided by an SMT query (unsat = holds for all inputs on that path)",
-				"roots":                         len(roots),
-				"root_list_head":                rootKeys,
-				"bounds":                        boundsFor(*prop, *tier),
-				"paths_infeasible":              infeasible,
+				"states":                           max(paths-infeasible, 1),
+				"transitions":                      max(decisions, 1),
+				"traces_validated_against_impl":    validated,
+				"samples":                          samples,
+				"exhaustive":                       len(inconcl) == 0,
+				"explanation":                      "states = symbolic paths of the real SSA code explored to completion (each covers every input satisfying its path condition); transitions = branch/structure/schedule decisions; every obligation is decided by an SMT query (unsat = holds for all inputs on that path)",
+				"roots":                            len(roots),
+				"root_list_head":                   rootKeys,
+				"bounds":                           boundsFor(*prop, *tier),
+				"paths_infeasible":                 infeasible,
 				"obligations_discharged_by_solver": asserts,
 				"obligations_folded_by_simplifier": folded,
-				"queries":                       map[string]int{"sat": x.stats.Sat, "unsat": x.stats.Unsat, "unknown": x.stats.Unknown, "errors": x.stats.Errors},
-				"solver_s":                      x.stats.Time.Seconds(),
-				"solver":                        *solver + " (fallback cvc5 on unknown obligations)",
-				"functions_encoded":             sortedKeys(funcs),
-				"inconclusive":                  inconcl,
-				"engine_mismatches":             mismatchNotes,
-				"known_findings_matched":        len(usedKnown),
-				"ssa_instructions_executed":     steps,
-				"load_s":                        loadS,
-				"replay_s":                      replayS,
+				"queries":                          map[string]int{"sat": x.stats.Sat, "unsat": x.stats.Unsat, "unknown": x.stats.Unknown, "errors": x.stats.Errors},
+				"solver_s":                         x.stats.Time.Seconds(),
+				"solver":                           *solver + " (fallback cvc5 on unknown obligations)",
+				"functions_encoded":                sortedKeys(funcs),
+				"inconclusive":                     inconcl,
+				"engine_mismatches":                mismatchNotes,
+				"known_findings_matched":           len(usedKnown),
+				"ssa_instructions_executed":        steps,
+				"load_s":                           loadS,
+				"replay_s":                         replayS,
 			},
 			"assumptions": assumptionsFor(*prop),
 		}
